@@ -91,19 +91,19 @@ def step2 {α} (D : Dom α) (expired : Bool) (s : St α) (u : Upd α) : St α ×
     else
       ({ s with files := setAt s.files u.node t, cache := setAt s.cache u.node (D.afterUpdate t) }, [(u.node, t)])
 
-def pass1 {α} (D : Dom α) (expired : Bool) : List (Upd α) → St α → St α × List (Write α)
+/-- one `for _, updater := range …` sweep: run `step` on every updater in order, collect the writes. -/
+def runPass {α} (step : St α → Upd α → St α × List (Write α)) : List (Upd α) → St α → St α × List (Write α)
   | [], s => (s, [])
   | u :: us, s =>
-    let r := step1 D expired s u
-    let r' := pass1 D expired us r.1
+    let r := step s u
+    let r' := runPass step us r.1
     (r'.1, r.2 ++ r'.2)
 
-def pass2 {α} (D : Dom α) (expired : Bool) : List (Upd α) → St α → St α × List (Write α)
-  | [], s => (s, [])
-  | u :: us, s =>
-    let r := step2 D expired s u
-    let r' := pass2 D expired us r.1
-    (r'.1, r.2 ++ r'.2)
+def pass1 {α} (D : Dom α) (expired : Bool) : List (Upd α) → St α → St α × List (Write α) :=
+  runPass (step1 D expired)
+
+def pass2 {α} (D : Dom α) (expired : Bool) : List (Upd α) → St α → St α × List (Write α) :=
+  runPass (step2 D expired)
 
 /-- LeveledUpdateBatch(updaters [][]ResourceUpdater): `for i := 0..` over the levels calling
     MergeUpdate, then `for i := len-1..0` over the levels (each level in forward order) calling update(). -/
